@@ -426,13 +426,13 @@ static size_t safec_ftoa(out_fct_type out, const char *funcname, char *buffer,
     if (value != value)
         return safec_out_rev(out, buffer, idx, maxlen,
                              (flags & FLAGS_UPPERCASE) ? "NAN" : "nan", 3,
-                             width, flags);
+                             width, flags & ~FLAGS_ZEROPAD);
     if (isinf(value)) {
         if (value < 0)
             // reverse of -inf
             return safec_out_rev(out, buffer, idx, maxlen,
                                  (flags & FLAGS_UPPERCASE) ? "FNI-" : "fni-", 4,
-                                 width, flags);
+                                 width, flags & ~FLAGS_ZEROPAD);
         else
             // reverse of inf
             return safec_out_rev(out, buffer, idx, maxlen,
@@ -441,7 +441,8 @@ static size_t safec_ftoa(out_fct_type out, const char *funcname, char *buffer,
                                                                  : "fni+"
                                  : (flags & FLAGS_UPPERCASE) ? "FNI"
                                                              : "fni",
-                                 (flags & FLAGS_PLUS) ? 4 : 3, width, flags);
+                                 (flags & FLAGS_PLUS) ? 4 : 3, width,
+                                 flags & ~FLAGS_ZEROPAD);
     }
     // test for very large values
     // standard printf behavior is to print EVERY whole number digit -- which
@@ -461,9 +462,9 @@ static size_t safec_ftoa(out_fct_type out, const char *funcname, char *buffer,
 #endif // PRINTF_SUPPORT_EXPONENTIAL
     }
 
-    // test for negative
+    // test for negative (including -0.0)
     negative = false;
-    if (value < 0) {
+    if (value < 0 || (value == 0 && signbit(value))) {
         negative = true;
         value = 0 - value;
     }
@@ -502,6 +503,9 @@ static size_t safec_ftoa(out_fct_type out, const char *funcname, char *buffer,
             // exactly 0.5 and ODD, then round up
             // 1.5 -> 2, but 2.5 -> 2
             ++whole;
+        }
+        if ((flags & FLAGS_HASH) && (len < PRINTF_FTOA_BUFFER_SIZE)) {
+            buf[len++] = '.'; // '#' always shows the decimal point
         }
     } else {
         unsigned int count = prec;
@@ -631,6 +635,36 @@ static inline int portable_isinfl(long double x) {
 #define _ISINFL(value) portable_isinfl(value)
 #endif // HAVE_ISINFL
 
+// rebuild a libc format from the parsed flags, width and precision: the directive
+// text itself may contain '*', which cannot be handed to snprintf with one argument
+static void safec_float_format(char *dst, size_t dstlen, const char *format,
+                               unsigned int prec, unsigned int width,
+                               unsigned int flags, bool is_long) {
+    const size_t flen = strlen(format);
+    const char conv = flen ? format[flen - 1] : 'f';
+    char *q = dst;
+    (void)dstlen;
+    *q++ = '%';
+    if (flags & FLAGS_LEFT)
+        *q++ = '-';
+    if (flags & FLAGS_PLUS)
+        *q++ = '+';
+    if (flags & FLAGS_SPACE)
+        *q++ = ' ';
+    if (flags & FLAGS_HASH)
+        *q++ = '#';
+    if (flags & FLAGS_ZEROPAD)
+        *q++ = '0';
+    if (width)
+        q += sprintf(q, "%u", width > 62U ? 62U : width);
+    if (flags & FLAGS_PRECISION)
+        q += sprintf(q, ".%u", prec > 62U ? 62U : prec);
+    if (is_long)
+        *q++ = 'L';
+    *q++ = conv;
+    *q = '\0';
+}
+
 // internal ftoa for fixed decimal long double
 static size_t safec_ftoa_long(out_fct_type out, const char *funcname,
                               char *buffer, size_t idx, size_t maxlen,
@@ -644,12 +678,12 @@ static size_t safec_ftoa_long(out_fct_type out, const char *funcname,
     if (value != value)
         return safec_out_rev(out, buffer, idx, maxlen,
                              (flags & FLAGS_UPPERCASE) ? "NAN" : "nan", 3,
-                             width, flags);
+                             width, flags & ~FLAGS_ZEROPAD);
     if (_ISINFL(value)) {
         if (value < 0)
             return safec_out_rev(out, buffer, idx, maxlen,
                                  (flags & FLAGS_UPPERCASE) ? "FNI-" : "fni-", 4,
-                                 width, flags);
+                                 width, flags & ~FLAGS_ZEROPAD);
         else
             return safec_out_rev(out, buffer, idx, maxlen,
                                  (flags & FLAGS_PLUS)
@@ -657,9 +691,14 @@ static size_t safec_ftoa_long(out_fct_type out, const char *funcname,
                                                                  : "fni+"
                                  : (flags & FLAGS_UPPERCASE) ? "FNI"
                                                              : "fni",
-                                 (flags & FLAGS_PLUS) ? 4 : 3, width, flags);
+                                 (flags & FLAGS_PLUS) ? 4 : 3, width,
+                                 flags & ~FLAGS_ZEROPAD);
     }
-    snprintf(buf, 64, format, value);
+    {
+        char fmt2[48];
+        safec_float_format(fmt2, sizeof fmt2, format, prec, width, flags, true);
+        snprintf(buf, 64, fmt2, value);
+    }
     buf[63] = '\0';
     while (*p != 0) {
         rc = out(*(p++), buffer, idx++, maxlen);
@@ -704,12 +743,12 @@ static inline size_t safec_atoa(out_fct_type out, const char *funcname,
     if (value != value)
         return safec_out_rev(out, buffer, idx, maxlen,
                              (flags & FLAGS_UPPERCASE) ? "NAN" : "nan", 3,
-                             width, flags);
+                             width, flags & ~FLAGS_ZEROPAD);
     if (isinf(value)) {
         if (value < 0)
             return safec_out_rev(out, buffer, idx, maxlen,
                                  (flags & FLAGS_UPPERCASE) ? "FNI-" : "fni-", 4,
-                                 width, flags);
+                                 width, flags & ~FLAGS_ZEROPAD);
         else
             return safec_out_rev(out, buffer, idx, maxlen,
                                  (flags & FLAGS_PLUS)
@@ -717,9 +756,15 @@ static inline size_t safec_atoa(out_fct_type out, const char *funcname,
                                                                  : "fni+"
                                  : (flags & FLAGS_UPPERCASE) ? "FNI"
                                                              : "fni",
-                                 (flags & FLAGS_PLUS) ? 4 : 3, width, flags);
+                                 (flags & FLAGS_PLUS) ? 4 : 3, width,
+                                 flags & ~FLAGS_ZEROPAD);
     }
-    snprintf(buf, 64, format, value);
+    {
+        char fmt2[48];
+        safec_float_format(fmt2, sizeof fmt2, format, prec, width, flags,
+                           false);
+        snprintf(buf, 64, fmt2, value);
+    }
     buf[63] = '\0';
     while (*p != 0) {
         rc = out(*(p++), buffer, idx++, maxlen);
@@ -750,8 +795,8 @@ static size_t safec_etoa(out_fct_type out, const char *funcname, char *buffer,
                           width, flags);
     }
 
-    // determine the sign
-    negative = value < 0;
+    // determine the sign (including -0.0)
+    negative = value < 0 || (value == 0 && signbit(value));
     if (negative) {
         value = -value;
     }
@@ -786,6 +831,11 @@ static size_t safec_etoa(out_fct_type out, const char *funcname, char *buffer,
             expval--;
             conv.F /= 10;
         }
+    }
+
+    // zero has exponent 0
+    if (value == 0.0) {
+        expval = 0;
     }
 
     // the exponent format is "%+03d" and largest value is "307", so set aside
@@ -831,6 +881,19 @@ static size_t safec_etoa(out_fct_type out, const char *funcname, char *buffer,
     // rescale the float value
     if (expval && conv.F != 0.0) {
         value /= conv.F;
+    }
+    // rounding to prec digits may carry into a second integer digit
+    // (9.9996 with 3 digits): renormalise to 1.000 and bump the exponent
+    if (minwidth) {
+        double half = 0.5;
+        unsigned int k = prec > 9U ? 9U : prec;
+        while (k--) {
+            half /= 10;
+        }
+        if (value + half >= 10.0) {
+            value /= 10;
+            expval++;
+        }
     }
 
     // output the floating part
